@@ -3,18 +3,22 @@
 (* is re-run from the start: strings are short).  Each state is printed with the verdict   *)
 (* and chunk structure Pattern.tla demands and replayed on the real tool.                  *)
 EXTENDS Pattern, Json
-CONSTANTS Alphabet, MaxLen, MinPct      \* strings longer than MaxLen - 1 must contain at least MinPct '%'
+CONSTANTS Alphabet, MaxLen, MinPct,     \* strings longer than MaxLen - 1 must contain at least MinPct '%'
+          Wrap                          \* "none", or "fncall": every string is wrapped as the arguments of a call  %a( ... )%
 VARIABLE str
 
+Prefix == IF Wrap = "fncall" THEN <<"PCT", "L", "LP">> ELSE <<>>
+Suffix == IF Wrap = "fncall" THEN <<"RP", "PCT">> ELSE <<>>
+Full == Prefix \o str \o Suffix
 Init == str = <<>>
 Next == /\ Len(str) < MaxLen
         /\ \E c \in Alphabet : str' = Append(str, c)
 Worth == Len(str) < MaxLen \/ PctCount(str) >= MinPct
-Emit == Worth => PrintT(<<"ST", ToJson([s |-> str, verdict |-> Verdict(str),
-                                        chunks |-> IF Verdict(str) = "reject" THEN <<>> ELSE Describe(str)])>>)
-InvDoubling == DoublingEscapes(str)
-InvOdd == OddRejected(str)
-InvTiling == Tiling(str)
+Emit == Worth => PrintT(<<"ST", ToJson([s |-> Full, verdict |-> Verdict(Full),
+                                        chunks |-> IF Verdict(Full) = "reject" THEN <<>> ELSE Describe(Full)])>>)
+InvDoubling == DoublingEscapes(Full)
+InvOdd == OddRejected(Full)
+InvTiling == Tiling(Full)
 
 (* the env / envInt decision table, printed once *)
 EnvTable == {[fn |-> f, state |-> s, def |-> d, outcome |-> EnvOutcome(f, s, d)] : f \in {"env", "envInt"}, s \in EnvStates, d \in BOOLEAN}
